@@ -525,7 +525,13 @@ class CustomSD(BaseCorrelations):
                                       - 1j * tau * w))) \
                         / (1 - np.exp(-w / self.temperature))
                 else:
-                    inte = self._spectral_density(w) * np.exp(-1j * w * tau)
+                    # exp(-w/T) is negligible here, but for an imaginary
+                    # (Matsubara) time exp(-(w/T - 1j*tau*w)) is not
+                    expo = 1 / self.temperature * w - 1j * tau * w
+                    if expo.real < 0.0: # beyond 1/T: avoid overflow
+                        expo = 1j * expo.imag
+                    inte = self._spectral_density(w) \
+                        * (np.exp(-1j * w * tau) + np.exp(-expo))
                 return inte
 
         integral = _complex_integral(integrand,
@@ -604,8 +610,14 @@ class CustomSD(BaseCorrelations):
                             - np.exp(- w / self.temperature) - 1) \
                         / (1 - np.exp(-w / self.temperature)) + 1j*tau * w)
                 else:
+                    # exp(-w/T) is negligible here, but for an imaginary
+                    # (Matsubara) time exp(-(w/T - 1j*tau*w)) is not
+                    expo = w / self.temperature - 1j * tau * w
+                    if expo.real < 0.0: # beyond 1/T: avoid overflow
+                        expo = 1j * expo.imag
                     inte = self._spectral_density(w) / w ** 2 \
-                        * (np.exp(-1j * w * tau) - 1 + 1j * w * tau)
+                        * (np.exp(-1j * w * tau) + np.exp(-expo) \
+                           - 1 + 1j * w * tau)
                 return inte
 
         integral = _complex_integral(integrand,
